@@ -513,10 +513,18 @@ impl Ir {
             // Run-once constant cone (see `try_dispatch_const`).  NotReady
             // leaves the flag unset — the main dispatch below falls back to
             // Cranelift, which still evaluates the const statements.
-            if !self.const_cone_done.load(Ordering::Relaxed)
-                && whole.try_dispatch_const(ff_ptr, comb_ptr, log_ptr) == DispatchOutcome::Done
-            {
-                self.const_cone_done.store(true, Ordering::Relaxed);
+            if !self.const_cone_done.load(Ordering::Relaxed) {
+                if whole.try_dispatch_const(ff_ptr, comb_ptr, log_ptr) == DispatchOutcome::Done {
+                    self.const_cone_done.store(true, Ordering::Relaxed);
+                } else if !validate {
+                    // The compiled main function leaves the constant cone to the
+                    // run-once function above. If the artifact is published right
+                    // after that call declined, the main dispatch below would run
+                    // on constants nobody has evaluated in this settle. Stay on
+                    // the chunked path for this settle; the next one takes over.
+                    self.run_chunked_settle(mask_cache, profile);
+                    return;
+                }
             }
 
             if !validate {
